@@ -100,6 +100,8 @@ Outcomes(c) ==
 RulesEntry(e, c, o, maxAge, offset) ==
   { <<"C14.assertion.sound:" \o e,    (o.v = "accept") => MayAccept(c.a, c.cfg, maxAge, offset)>>,
     <<"C14.assertion.identity:" \o e, (o.v = "accept") => o.identity = c.a.iss>>,
+    \* C02 names the JWT-profile verifier too: believed only under a key the storage holds for the issuer, fitting the algorithm
+    <<"C02.assertion.key:" \o e, (o.v = "accept") => Signed(c.a)>>,
     <<"C09.nopanic:" \o e, o.v # "panic">> }
 Rules(c, o) ==
   RulesEntry("verify", c, o.verify, c.cfg.maxAge, 0)
